@@ -170,6 +170,34 @@ def run(P: Program, R: Report, tier: str) -> None:
         for a_ in accs:
             flushed = any(x[1] == "mapping" or True for g, x in flush_sites) and bool(flush_sites)
             R.check(flushed, "R17.1", f, f.node, f"{f.name}: accumulator `{a_}` is flushed into the mapping", "no flush found", via="syntax")
+        # the flush is total: an accumulator entry that holds at least one column reaches the mapping
+        import re as _re
+
+        for g, x in flush_sites:
+            st = x[0]
+            lps = [lp for lp in ast.walk(g.node) if isinstance(lp, ast.For) and st in list(ast.walk(lp))]
+            if not lps:
+                continue
+            lp = lps[-1]
+            loopvars = {v.id for v in ast.walk(lp.target) if isinstance(v, ast.Name)}
+            conds = []
+            for i in ast.walk(lp):
+                if isinstance(i, ast.If) and st in list(ast.walk(ast.Module(i.body, []))):
+                    conds.append(norm(i.test).replace(" ", ""))
+                if isinstance(i, ast.If) and len(i.body) == 1 and isinstance(i.body[0], ast.Continue) and i.lineno < st.lineno:
+                    conds.append("not(" + norm(i.test).replace(" ", "") + ")")
+            for cnd in conds:
+                v = next((lv for lv in loopvars if lv in cnd), None)
+                if v is None:
+                    continue
+                nonempty = {v, f"len({v})>0", f"len({v})>=1", f"len({v})!=0", f"{v}!={{}}", f"bool({v})", f"not(not{v})", f"not(len({v})==0)"}
+                if cnd in nonempty:
+                    R.ok("R17.1", g, st, f"{g.name}: every non-empty accumulator entry is flushed", via="guard-shape")
+                elif _re.fullmatch(rf"len\({v}\)(>[1-9]\d*|>=([2-9]|[1-9]\d+))", cnd) or _re.fullmatch(rf"not\(len\({v}\)(<=?[1-9]\d*|==1)\)", cnd):
+                    R.fail("R17.1", g, st, f"{g.name}: every non-empty accumulator entry is flushed",
+                           f"the flush runs only under `{cnd}`: a column that was already removed from the working list but is the only one of its feature is stored nowhere - it vanishes from the inferred map")
+                else:
+                    R.undecided("R17.1", g, st, f"{g.name}: every non-empty accumulator entry is flushed", f"flush condition `{cnd}` not recognised")
         rets = [st for st in ast.walk(f.node) if isinstance(st, ast.Return) and st.value is not None]
         for r in rets:
             R.check(norm(r.value) == work, "R17.6", f, r, f"{f.name} returns its working copy",
